@@ -62,6 +62,43 @@ HasUncovered(prefix, tree, loc, glo) ==
 RECURSIVE AllInLower(_, _, _, _)
 AllInLower(prefix, tree, loc, glo) == Size(Lower(prefix, tree, loc, glo)) = Size(tree)
 
+(* ---- the exact reading: annet lets ONE of the matches govern a row -- which one is a heuristic (most specific by a character
+   measure) that the property does not fix, except where the measure cannot tell two matches apart: matches whose effective patterns
+   are identical are taken in the order direct before negated, local before %global.  Whatever match governs, the consequences are fixed:
+     - the negated form of a rule whose (united) lines are all cant_delete: the row is not passed;
+     - a local rule matched directly: the row passes and the children rules of ALL directly matching local rules apply below it;
+     - anything else (%global rule, negated form): the row passes, below it only inherited %global rules apply.
+   RaiseSet(out, tree, rules...) (rules united, see Unite) = the strict-mode outcomes (TRUE = raises) of all choices of governing matches that explain `out`;
+   empty when no choice explains `out`.                                                                                          *)
+\* lines with the same rule text are ONE rule: %global if any of them says so (then it has no children rules), protected only if all
+\* of them are, its children rules the union of theirs (united in turn); it stands where its first line stands
+RECURSIVE AclDedupAcc(_, _)
+AclDedupAcc(q, acc) == IF q = <<>> THEN acc ELSE AclDedupAcc(Tail(q), IF \E k \in DOMAIN acc : acc[k] = Head(q) THEN acc ELSE Append(acc, Head(q)))
+RECURSIVE Unite(_)
+Unite(rules) ==
+  LET pats == AclDedupAcc([k \in DOMAIN rules |-> rules[k].pat], <<>>) IN
+  [j \in DOMAIN pats |->
+     LET mem == SelectSeq(rules, LAMBDA r : r.pat = pats[j])
+         g == \E k \in DOMAIN mem : mem[k].glob
+     IN [pat |-> pats[j], glob |-> g, cd |-> \A k \in DOMAIN mem : mem[k].cd, gen |-> mem[1].gen,
+         kids |-> IF g THEN <<>> ELSE Unite(FlatSeq([k \in DOMAIN mem |-> mem[k].kids]))]]
+EffPat(prefix, vis, m) == IF m[2] = "direct" THEN vis[m[1]].pat ELSE RevPattern(vis[m[1]].pat, prefix)
+Prec(vis, m) == (IF m[2] = "direct" THEN 0 ELSE 2) + (IF vis[m[1]].glob THEN 1 ELSE 0)
+Sel(prefix, vis, ms) == {m \in ms : ~\E n \in ms : EffPat(prefix, vis, n) = EffPat(prefix, vis, m) /\ Prec(vis, n) < Prec(vis, m)}
+GovDrops(vis, m) == m[2] = "reverse" /\ vis[m[1]].cd
+GovDown(vis, ms, m) == IF m[2] = "direct" /\ ~vis[m[1]].glob THEN MergedKids(vis, ms) ELSE <<>>
+RECURSIVE RaiseSet(_, _, _, _, _)
+RaiseSet(prefix, out, tree, loc, glo) ==
+  LET vis == AVisible(loc, glo)
+      opts(i) == LET row == tree[i].row  ms == Matches(prefix, vis, row)  inout == IdxOf(out, row) # 0 IN
+                 IF ms = {} THEN (IF inout THEN {} ELSE {TRUE})
+                 ELSE UNION { IF GovDrops(vis, m) THEN (IF inout THEN {} ELSE {FALSE})
+                              ELSE IF ~inout THEN {}
+                              ELSE RaiseSet(prefix, KidsOf(out, row), tree[i].kids, GovDown(vis, ms, m), InheritDown(loc, glo))
+                              : m \in Sel(prefix, vis, ms) }
+  IN IF \E i \in DOMAIN tree : opts(i) = {} THEN {}
+     ELSE (IF \E i \in DOMAIN tree : TRUE \in opts(i) THEN {TRUE} ELSE {}) \cup (IF \A i \in DOMAIN tree : FALSE \in opts(i) THEN {FALSE} ELSE {})
+
 \* exclusivity: two generators both allow deleting the same row (per generator: conjunction of its matching rules' cant_delete flags)
 Deleters(prefix, vis, row) ==
   LET ms == Matches(prefix, vis, row)
